@@ -426,7 +426,20 @@ VF_PART(op_vs_matrix)
 
 // ================================================================================================
 // projection: reference = exhaustive barycentric test of the query point against EVERY cell (Eigen solve)
-struct Cell { std::vector<int> ap; EM T; /* (ndim+1)x(ndim+1): rows = coords + row of ones */ EM Tinv; };
+struct Cell
+{
+  std::vector<int> ap;
+  EM T;     // (ndim+1)x(ndim+1): rows = coords + row of ones
+  EM Dinv;  // inverse of the matrix of the edge vectors a_k - a_0: barycentric coordinates are computed in coordinates local to the cell
+  EV bary(const EV& p) const
+  {
+    int nd = (int)Dinv.rows();
+    EV rhs(nd); for (int d = 0; d < nd; d++) rhs[d] = p[d] - T(d, 0);
+    EV l = Dinv * rhs;
+    EV b(nd + 1); b[0] = 1. - l.sum(); for (int k = 0; k < nd; k++) b[k + 1] = l[k];
+    return b;
+  }
+};
 static std::vector<Cell> cells_of(const AMesh* mesh, int ndim)
 {
   std::vector<Cell> out;
@@ -440,7 +453,9 @@ static std::vector<Cell> cells_of(const AMesh* mesh, int ndim)
       for (int d = 0; d < ndim; d++) c.T(d, r) = mesh->getApexCoor(ia, d);
       c.T(ndim, r) = 1.;
     }
-    c.Tinv = c.T.inverse();
+    EM Dm(ndim, ndim);
+    for (int k = 1; k <= ndim; k++) for (int d = 0; d < ndim; d++) Dm(d, k - 1) = c.T(d, k) - c.T(d, 0);
+    c.Dinv = Dm.inverse();
     out.push_back(c);
   }
   return out;
@@ -459,20 +474,89 @@ static std::vector<std::vector<double>> bary_menu(int ndim, bool thorough)
   return m;
 }
 
+// The same mesh in another frame: x' = s x + t with s a power of two and t = k (2^19, 2^22, 2^20) (UTM-like magnitudes): for the meshes with dyadic
+// coordinates the image is exact in floating point. The property is invariant under such a change of frame.
+static const double FRAME_SCALE[6] = {1., 1., 0.125, 0.125, 32., 32.};
+static const int FRAME_SHIFT[6] = {0, 1, 0, 1, 0, 1};
+static MeshSpec to_frame(const MeshSpec& m, int frame)
+{
+  MeshSpec r = m;
+  double sc = FRAME_SCALE[frame];
+  double t[3] = {524288. * FRAME_SHIFT[frame], 4194304. * FRAME_SHIFT[frame], 1048576. * FRAME_SHIFT[frame]};
+  if (m.kind == 0)
+  {
+    for (size_t d = 0; d < r.dx.size(); d++) r.dx[d] *= sc;
+    for (size_t d = 0; d < r.x0.size(); d++) r.x0[d] = sc * r.x0[d] + t[d];
+  }
+  else
+    for (auto& a : r.apices) for (size_t d = 0; d < a.size(); d++) a[d] = sc * a[d] + t[d];
+  if (frame > 0) r.desc += " frame: scale=" + fmt(sc) + " shift=" + std::to_string(FRAME_SHIFT[frame]) + "*(2^19,2^22,2^20)";
+  return r;
+}
+
+// query points of the projection part: dyadic barycentric menus in every cell (inside, on faces, on apices, across faces) + far outside points.
+// The enumeration order only depends on the numbering of cells and apices: the same mesh in another frame gives corresponding points.
+static void gen_query_points(const AMesh* mesh, const std::vector<Cell>& cells, int ndim, const std::vector<std::vector<double>>& W,
+                             std::vector<EV>& pts, std::vector<int>& must_in)
+{
+  int na = mesh->getNApices();
+    std::map<std::vector<int>, int> facecount;
+  for (auto& c : cells)
+    for (int k = 0; k <= ndim; k++)
+    {
+      std::vector<int> f;
+      for (int r = 0; r <= ndim; r++) if (r != k) f.push_back(c.ap[r]);
+      std::sort(f.begin(), f.end());
+      facecount[f]++;
+    }
+  double cmin = 1e300, cmax = -1e300;
+  for (int ia = 0; ia < na; ia++) for (int d = 0; d < ndim; d++) { double v = mesh->getApexCoor(ia, d); cmin = std::min(cmin, v); cmax = std::max(cmax, v); }
+  for (int s2 = 0; s2 < 2; s2++) { EV p(ndim); for (int d = 0; d < ndim; d++) p[d] = s2 == 0 ? cmin - 10. - d : cmax + 7.5 + d; pts.push_back(p); must_in.push_back(0); }
+  for (auto& c : cells)
+    for (auto& w : W)
+      for (int rot = 0; rot <= ndim; rot++)
+      {
+        EV p = EV::Zero(ndim);
+        int nzero = 0, zeroat = -1; bool neg = false;
+        for (int r = 0; r <= ndim; r++)
+        {
+          double wr = w[(r + rot) % (ndim + 1)];
+          if (wr == 0) { nzero++; zeroat = r; }
+          if (wr < 0) neg = true;
+          if (r > 0) for (int d = 0; d < ndim; d++) p[d] += wr * (c.T(d, r) - c.T(d, 0));
+        }
+        for (int d = 0; d < ndim; d++) p[d] += c.T(d, 0);  // p = a_0 + sum_r w_r (a_r - a_0): the weights sum to 1
+        int must = 0;
+        if (!neg && nzero == 0) must = 1;
+        if (!neg && nzero == 1)
+        {
+          std::vector<int> f;
+          for (int r = 0; r <= ndim; r++) if (r != zeroat) f.push_back(c.ap[r]);
+          std::sort(f.begin(), f.end());
+          if (facecount[f] >= 2) must = 1;
+        }
+        pts.push_back(p); must_in.push_back(must);
+      }
+  { EV p(ndim); for (int d = 0; d < ndim; d++) p[d] = cmax + 100.; pts.push_back(p); must_in.push_back(0); }
+}
+
 VF_PART(projection)
 {
   auto meshes = mesh_menu(C.thorough(), 0);
   Space sp;
   // order: 0 = inside points first, boundary points next, outside points last; 1 = generation order (outside points interleaved, two first)
   // filter: 0 = all samples, 1 = a selection and undefined Z values with rankZ=0
-  sp.axis("mesh", (int)meshes.size()).axis("order", 2).axis("filter", 2);
+  // frame: 0 = the mesh as in the menu; 1..5 = scaled by 1, 1/8, 32 and/or shifted by (2^19, 2^22, 2^20)
+  sp.axis("mesh", (int)meshes.size()).axis("order", 2).axis("filter", 2).axis("frame", 6);
   for_each_case(C, sp, [&](uint64_t id, const std::vector<int>& idx) {
-    const MeshSpec& ms = meshes[idx[0]];
-    int ord = idx[1], filter = idx[2];
+    int ord = idx[1], filter = idx[2], frame = idx[3];
+    if (frame > 0 && filter == 1 && !C.thorough()) return;  // (quick: the filtered layouts only in the original frame)
+    const MeshSpec ms = to_frame(meshes[idx[0]], frame);
     int ndim = ms.ndim;
     std::string kase = std::to_string(id);
     std::string mk = std::string(ms.kind == 0 ? "turbo" : "std") + std::to_string(ndim) + "d";
     std::string lay = " order=" + std::to_string(ord) + " filter=" + std::to_string(filter);
+    C.outcome("frame=" + std::to_string(frame));
     defineDefaultSpace(ESpaceType::RN, ndim);
     std::unique_ptr<AMesh> mesh(build_mesh(ms));
     if (!mesh) { C.violation("setup:null", "mesh not built: " + ms.desc, kase); return; }
@@ -482,53 +566,24 @@ VF_PART(projection)
     std::vector<EV> pts;
     std::vector<int> must_in;  // 1: generated strictly inside a cell or strictly inside a face shared by two cells
     auto W = bary_menu(ndim, C.thorough());
-    std::map<std::vector<int>, int> facecount;
+    gen_query_points(mesh.get(), cells, ndim, W, pts, must_in);
+    // Conditioning of the question itself: a coordinate of magnitude X is only known to ulp(X), i.e. a barycentric weight in a cell of size h to
+    // ulp(X)/h. The tolerance on the weights follows that bound (16 ulp(Xmax)/hmin, at least 1e-12); an error growing like X*Y/h^2 is far above it.
+    double xmax = 0, hmin = 1e300;
     for (auto& c : cells)
-      for (int k = 0; k <= ndim; k++)
-      {
-        std::vector<int> f;
-        for (int r = 0; r <= ndim; r++) if (r != k) f.push_back(c.ap[r]);
-        std::sort(f.begin(), f.end());
-        facecount[f]++;
-      }
-    double cmin = 1e300, cmax = -1e300;
-    for (int ia = 0; ia < na; ia++) for (int d = 0; d < ndim; d++) { double v = mesh->getApexCoor(ia, d); cmin = std::min(cmin, v); cmax = std::max(cmax, v); }
-    double scale = std::max({1., std::fabs(cmin), std::fabs(cmax)});
-    for (int s2 = 0; s2 < 2; s2++) { EV p(ndim); for (int d = 0; d < ndim; d++) p[d] = s2 == 0 ? cmin - 10. - d : cmax + 7.5 + d; pts.push_back(p); must_in.push_back(0); }
-    for (auto& c : cells)
-      for (auto& w : W)
-        for (int rot = 0; rot <= ndim; rot++)
-        {
-          EV p = EV::Zero(ndim);
-          int nzero = 0, zeroat = -1; bool neg = false;
-          for (int r = 0; r <= ndim; r++)
-          {
-            double wr = w[(r + rot) % (ndim + 1)];
-            if (wr == 0) { nzero++; zeroat = r; }
-            if (wr < 0) neg = true;
-            for (int d = 0; d < ndim; d++) p[d] += wr * c.T(d, r);
-          }
-          int must = 0;
-          if (!neg && nzero == 0) must = 1;
-          if (!neg && nzero == 1)
-          {
-            std::vector<int> f;
-            for (int r = 0; r <= ndim; r++) if (r != zeroat) f.push_back(c.ap[r]);
-            std::sort(f.begin(), f.end());
-            if (facecount[f] >= 2) must = 1;
-          }
-          pts.push_back(p); must_in.push_back(must);
-        }
-    { EV p(ndim); for (int d = 0; d < ndim; d++) p[d] = cmax + 100.; pts.push_back(p); must_in.push_back(0); }
+      for (int r1 = 0; r1 <= ndim; r1++) for (int r2 = r1 + 1; r2 <= ndim; r2++)
+      { double l2 = 0; for (int d = 0; d < ndim; d++) { l2 += (c.T(d, r1) - c.T(d, r2)) * (c.T(d, r1) - c.T(d, r2)); xmax = std::max(xmax, std::fabs(c.T(d, r1))); } hmin = std::min(hmin, std::sqrt(l2)); }
+    const double tolw_in = std::max(1e-12, 16. * 2.220446049250313e-16 * xmax / std::max(hmin, 1e-300));
+    double hmesh = 0;  // extent of the mesh: the length scale of every tolerance (NOT the magnitude of the coordinates)
+    for (int d = 0; d < ndim; d++) { double lo = 1e300, hi = -1e300; for (int ia = 0; ia < na; ia++) { double v = mesh->getApexCoor(ia, d); lo = std::min(lo, v); hi = std::max(hi, v); } hmesh = std::max(hmesh, hi - lo); }
     int np = (int)pts.size();
     // ---- reference classification: best margin over all cells
     std::vector<double> marg(np);
     std::vector<int> cls(np);  // 0 inside, 1 boundary band, 2 outside
     for (int i = 0; i < np; i++)
     {
-      EV rhs(ndim + 1); rhs.head(ndim) = pts[i]; rhs[ndim] = 1.;
       double m = -1e300;
-      for (auto& c : cells) { EV b = c.Tinv * rhs; m = std::max(m, b.minCoeff()); }
+      for (auto& c : cells) { EV b = c.bary(pts[i]); m = std::max(m, b.minCoeff()); }
       marg[i] = m;
       cls[i] = (m > 1e-7 || (must_in[i] && m > -1e-12)) ? 0 : (m < -1e-4 ? 2 : 1);
     }
@@ -601,9 +656,11 @@ VF_PART(projection)
       auto judge_row = [&](double tolw) {
         if (!(wmin >= -tolw)) pend.push_back({"proj:negative-weight:" + mk, "weight " + fmt(wmin) + " at " + pstr});
         if (!(std::fabs(sum - 1.) <= std::max(tolw, 1e-12) * (ndim + 1))) pend.push_back({"proj:sum-not-one:" + mk, "weights sum to " + fmt(sum) + " at " + pstr});
-        EV rep = XA.transpose() * w;
-        double dev = (rep - p).cwiseAbs().maxCoeff();
-        if (!(dev <= std::max(tolw * 10, 1e-10) * scale))
+        // affine reproduction evaluated in coordinates local to the point: sum_k w_k (x_k - p) = 0 (translation invariant, no cancellation)
+        EV rep = EV::Zero(ndim);
+        for (int k = 0; k < na; k++) if (w[k] != 0) for (int d = 0; d < ndim; d++) rep[d] += w[k] * (XA(k, d) - p[d]);
+        double dev = rep.cwiseAbs().maxCoeff();
+        if (!(dev <= std::max(tolw * 10, 1e-9) * hmesh))
           pend.push_back({"proj:affine-not-reproduced:" + mk, "sum w_k x_k differs from the point by " + fmt(dev) + " at " + pstr + " weights " + vstr(std::vector<double>(w.data(), w.data() + na))});
         int nnz = 0; for (int k = 0; k < na; k++) if (w[k] != 0) nnz++;
         if (nnz > ndim + 1) pend.push_back({"proj:too-many-weights:" + mk, std::to_string(nnz) + " non zero weights at " + pstr});
@@ -612,7 +669,7 @@ VF_PART(projection)
       {
         nin++;
         if (empty) pend.push_back({"proj:empty-row-inside:" + mk, "empty row for a point inside the mesh (margin " + fmt(marg[ip]) + "): " + pstr});
-        else judge_row(1e-12);
+        else judge_row(tolw_in);
         C.outcome(marg[ip] > 1e-7 ? "inside-cell" : "inside-on-shared-face");
       }
       else if (cls[ip] == 2)
@@ -643,7 +700,9 @@ VF_PART(projection)
         auto it = wref.find(R.kept[row]);
         if (it != wref.end() && it->second.cwiseAbs().maxCoeff() != 0.) want.push_back(it->second);
       }
-      bool shifted = got.size() == want.size() && !got.empty();
+      bool displaced = false;  // at least one sample whose row does not hold its own weights
+      for (int row = 0; row < nexp; row++) { auto it = wref.find(R.kept[row]); if (it != wref.end() && it->second != EV(R.A.row(row).transpose())) displaced = true; }
+      bool shifted = displaced && got.size() == want.size() && !got.empty();
       for (size_t k = 0; shifted && k < got.size(); k++) if (got[k] != want[k]) shifted = false;
       if (shifted)
       {
@@ -652,6 +711,34 @@ VF_PART(projection)
         pend.push_back({"proj:rows-shifted-after-sample-outside-grid:" + std::string(ms.kind == 0 ? "turbo" : "std"),
                         "the non empty rows are the right ones but stored at earlier row indices: rows no longer correspond to samples (first symptom: " + first + ")"});
         C.outcome("rows-shifted");
+      }
+    }
+    // ---- invariance under the change of frame: the weights of the points strictly inside one cell are those of the same point of the same mesh
+    // in the original frame (they are ratios of volumes)
+    if (frame > 0 && filter == 0 && R.nrows == nexp)
+    {
+      std::unique_ptr<AMesh> mesh0(build_mesh(meshes[idx[0]]));
+      auto cells0 = cells_of(mesh0.get(), ndim);
+      std::vector<EV> pts0; std::vector<int> must0;
+      gen_query_points(mesh0.get(), cells0, ndim, W, pts0, must0);
+      if ((int)pts0.size() == np && mesh0->getNApices() == na)
+      {
+        std::vector<std::vector<double>> X0(ndim, std::vector<double>(np)), Z0(1, std::vector<double>(np, 1.));
+        for (int i = 0; i < np; i++) for (int d = 0; d < ndim; d++) X0[d][i] = pts0[R.kept[i]][d];
+        std::unique_ptr<Db> db0(make_db_xz(X0, Z0));
+        ProjMatrix proj0(db0.get(), mesh0.get(), -1, false);
+        double worst = 0; int wrow = -1;
+        if (proj0.getNRows() == np && proj0.getNCols() == na)
+          for (int row = 0; row < np; row++)
+          {
+            int ip = R.kept[row];
+            if (!(cls[ip] == 0 && marg[ip] > 1e-7)) continue;
+            for (int k = 0; k < na; k++) { double dlt = std::fabs(proj0.getValue(row, k) - R.A(row, k)); if (dlt > worst) { worst = dlt; wrow = row; } }
+          }
+        if (!(worst <= std::max(1e-9, 4 * tolw_in)))
+          pend.push_back({"proj:weights-depend-on-the-frame:" + mk, "weights of the same point of the same mesh change by " + fmt(worst) + " when the mesh is scaled/shifted (row " + std::to_string(wrow) +
+                          ", point " + vstr(std::vector<double>(pts[R.kept[std::max(wrow, 0)]].data(), pts[R.kept[std::max(wrow, 0)]].data() + ndim)) + ") " + ms.desc + lay});
+        C.outcome(worst == 0 ? "frame-invariance:bitwise" : worst <= 1e-12 ? "frame-invariance:<1e-12" : worst <= 1e-9 ? "frame-invariance:<1e-9" : worst <= 4 * tolw_in ? "frame-invariance:within-ulp(X)/h" : "frame-invariance:BROKEN");
       }
     }
     for (auto& pv : pend) C.violation(pv.first, pv.second, kase);
